@@ -6,7 +6,7 @@ CONSTANTS
   Topos <- ToposAll
   Strict = TRUE
   Breaker = TRUE
-  KeepSeen = TRUE
+  KeepSeen = FALSE
   BudgetSet = {0}
 INVARIANT Where
 INVARIANT TypeOK
